@@ -57,6 +57,12 @@ func genMembershipPlan(seed uint64, tier string) *Plan {
 		steps = g.rng(6, 60)
 		universe = 5
 	}
+	// sporadic failures need room: more than three failed lookups in all, never more than three in a row (the
+	// shortest such histories have six entries)
+	sporadic := g.chance(15)
+	if sporadic && steps < 7 {
+		steps = g.rng(7, 12)
+	}
 	for _, n := range names {
 		pool := dnsPool[n]
 		if len(pool) > universe {
@@ -64,7 +70,7 @@ func genMembershipPlan(seed uint64, tier string) *Plan {
 		}
 		var sc []simnet.Answer
 		failRun := 0
-		if g.chance(15) {
+		if sporadic {
 			// sporadic failures: single failed lookups between successful ones that return the same addresses -
 			// never more than three in a row, so the rotation must stay as it is however many there are in total
 			var same []string
